@@ -100,7 +100,7 @@ func directedTwoExisting(r *rand.Rand, c GenCfg) Program {
 	}
 	t2 := TxnSpec{Mode: "w", Open: []int{0, 1}, End: "commit", Ops: []OpSpec{
 		{Op: "Update", Store: 0, K: 2, V: "a2'"}, {Op: "Add", Store: 0, K: 6, V: "a6"},
-		{Op: "Update", Store: 1, K: 3, V: "b3'"}, {Op: "Remove", Store: 1, K: 5}, {Op: "Add", Store: 1, K: 7, V: "b7"}}}
+		{Op: "Get", Store: 1, K: 3}, {Op: "Update", Store: 1, K: 3, V: "b3'"}, {Op: "Remove", Store: 1, K: 5}, {Op: "Add", Store: 1, K: 7, V: "b7"}}}
 	p.Txns = []TxnSpec{t1, t2}
 	return p
 }
